@@ -3,3 +3,7 @@ import G3D.Props.C17
 #print axioms G3D.Props.C17.general_form_roundtrip
 #print axioms G3D.Props.C17.three_points_contained
 #print axioms G3D.Props.C17.neg_plane
+#print axioms G3D.Props.C17.parametric_roundtrip
+#print axioms G3D.Props.C17.point_normal_roundtrip
+#print axioms G3D.Props.C17.line_forms
+#print axioms G3D.Props.C17.line_parametric_roundtrip
